@@ -104,7 +104,12 @@ class Collector:
         from .sx import RCP
         for e in list(seen.values()):
             if z3.is_app(e) and e.decl().eq(RCP):
-                s.add(e.arg(0) * e == 1)
+                s.add(z3.Implies(e.arg(0) != 0, e.arg(0) * e == 1))      # rcp is total; only a non-zero divisor has a reciprocal
+        if s.check() == z3.unsat:
+            # vacuity guard: hypotheses + side conditions + reciprocal axioms must be consistent before anything is concluded from them
+            r1['second_stage'] = 'hypotheses inconsistent'
+            return dict(status='unknown', backend='z3-full-uf', time=r1['time'] + round(time.time() - t0, 3),
+                        reason='hypotheses of the full query are inconsistent (vacuous): nothing concluded')
         s.add(lhs != rhs)
         chk = s.check()
         if chk == z3.unsat:
@@ -122,6 +127,9 @@ class Collector:
     def lia(self, oid, hyps, goal, replay=None, sample=False):
         hyps = list(hyps) + self._rcp_axioms(list(hyps) + [goal])
         r = prove.prove_lia(hyps, goal)
+        if r['status'] == 'proved' and hyps and prove.check_sat(hyps, timeout=5000) == z3.unsat:
+            # vacuity guard: an inconsistent hypothesis set proves everything
+            r = dict(status='unknown', backend=r['backend'], time=r['time'], reason='hypotheses are inconsistent (vacuous): nothing concluded')
         d = self._add(oid, 'vc', r)
         if sample:
             d['sample'] = f'hyps={[str(h) for h in hyps][:12]} |- {str(goal)[:400]}'
@@ -134,7 +142,8 @@ class Collector:
         return d
 
     def _rcp_axioms(self, terms):
-        """b * rcp(b) == 1 for every reciprocal occurring in the terms (divisors are non-zero: precondition of the division)"""
+        """b != 0 => b * rcp(b) == 1 for every reciprocal occurring in the terms (unguarded, a reciprocal that only occurs on an infeasible
+        branch with a zero divisor would make the hypotheses inconsistent and every goal provable)"""
         from .sx import RCP
         seen, out = {}, []
 
@@ -143,7 +152,7 @@ class Collector:
                 return
             seen[e.get_id()] = e
             if z3.is_app(e) and e.decl().eq(RCP):
-                out.append(e.arg(0) * e == 1)
+                out.append(z3.Implies(e.arg(0) != 0, e.arg(0) * e == 1))
             for c in e.children():
                 walk(c)
         for t in terms:
